@@ -11,7 +11,8 @@
      scp DOC                         -> row_ranges/col_ranges of every table:
             sheets ';' tables '|' rows '/' cols ; entries preceded by '.' : '-' or scope(1..4):cps(name)
      rst DOC hs ht n p1 p2           -> resolve_table for the n prefix parts: s.t joined by ','
-     rsl DOC hs ht n p1 p2 body      -> decode_label body, resolve_label: abs(0/1)|s.t.axis(0 row/1 col).idx,... *)
+     rsl DOC hs ht n p1 p2 body      -> decode_label body, resolve_label: abs(0/1)|s.t.axis(0 row/1 col).idx,...
+     rss DOC hs ht n p1 p2 b1 b2     -> decode both bodies, resolve_span: abs1 abs2|s.t.axis.idx.axis.idx,... *)
 From Coq Require Import ZArith NArith List Bool.
 From NP Require Import Model.PyBase Model.A1 Model.Refs.
 Import ListNotations.
@@ -109,5 +110,12 @@ Definition handle (line : list N) : list N :=
     let '(ab, name) := decode_label (parse_cps body) in
     (if ab then [49] else [48]) ++ [124] ++
     join [44] (map show_hit (resolve_label (parse_doc ds) (to_nat hs, to_nat ht) (prefix_of n p1 p2) name))
+  | [[114;115;115]; ds; hs; ht; n; p1; p2; b1; b2] =>
+    let '(ab1, n1) := decode_label (parse_cps b1) in
+    let '(ab2, n2) := decode_label (parse_cps b2) in
+    (if ab1 then [49] else [48]) ++ (if ab2 then [49] else [48]) ++ [124] ++
+    join [44] (map (fun h : shit => show_hit (fst h, fst (snd h)) ++ [46] ++
+                       (match fst (snd (snd h)) with ROW => [48] | COL => [49] end) ++ [46] ++ show_nat (snd (snd (snd h))))
+                   (resolve_span (parse_doc ds) (to_nat hs, to_nat ht) (prefix_of n p1 p2) n1 n2))
   | _ => [63]
   end.
